@@ -141,6 +141,11 @@ def gen_program(rng, profile, tier, opts, contraction, nsteps, op_reuse=False):
             # reuse an earlier operation description where it fits the new target kinds
             fits = [(j, o) for j, o in enumerate(ops_seen) if o["fam"] == st["op"]["fam"] and o["fam"] != "comp"
                     and o["type"] not in ("Custom", "Expresion")]
+            # an expression-defined composite operation is reusable on other operands of the same kinds
+            # (Fock factors are written through dims[i], so they adapt to the new operands' dimensions)
+            if st["op"]["fam"] == "comp" and st["op"]["type"] == "Expression" and "X" not in st["op"]["state_types"]:
+                fits = [(j, o) for j, o in enumerate(ops_seen) if o["fam"] == "comp" and o["type"] == "Expression"
+                        and o["state_types"] == st["op"]["state_types"]]
             if fits and rng.random() < 0.6:
                 j, o = fits[int(rng.integers(0, len(fits)))]
                 st["op"] = o
@@ -298,6 +303,24 @@ def c15_driver(a, col):
         Cc, _ = exec_twin(decl, steps, lambda i: contraction, lead=A, reuse_ops=True, pre_step=unrelated)
         compare_runs("C15", A, B, steps, "reused-vs-fresh", col, replay, cellfn, check_draws=False)
         compare_runs("C15", A, Cc, steps, "plain-vs-interleaved", col, replay, cellfn, check_draws=False)
+        # arrays inside expressions and arrays handed out by the context are the user's too
+        from pwv.opspec import build_expr
+        from pwv.contracts import leaves
+        for rec in runA.records:
+            sp = rec.step.get("op") or {}
+            if rec.op_obj is not None and "expr" in sp:
+                try:
+                    now = [x for x in leaves(rec.op_obj.kwargs["expr"]) if isinstance(x, np.ndarray)]
+                    orig = [x for x in leaves(build_expr(sp["expr"], True)) if isinstance(x, np.ndarray)]
+                    ok = len(now) == len(orig) and all(a.shape == b.shape and np.array_equal(a, b) for a, b in zip(now, orig))
+                    if now:
+                        col.add([V("C15", ok, "user-array-modified", f"step {rec.i}: a numpy array inside the expression of {sp['fam']}.{sp['type']} was modified by applying the operation",
+                                   ("user-array", "expr-leaf"), kind="apply", op=sp["fam"] + "." + sp["type"])], replay)
+                except Exception:  # noqa: BLE001
+                    pass
+                for name, arr, b0 in (rec.ctx_held or []):
+                    col.add([V("C15", arr.tobytes() == b0, "user-array-modified", f"step {rec.i}: the array returned by context entry {name!r} was modified by applying {sp['fam']}.{sp['type']}",
+                               ("user-array", "context"), kind="apply", op=sp["fam"] + "." + sp["type"])], replay)
         # user supplied arrays untouched
         for rec in runA.records:
             if rec.user_arrays:
@@ -453,11 +476,6 @@ def c18_twin(a, col, budget=None):
             if sa["blocks"] is not None and sb["blocks"] is not None and sa["blocks"] != sb["blocks"]:
                 col.add([V("C18", False, "partition-differs", f"step {i} {st['k']}: blocks {sa['blocks']} vs {sb['blocks']}", cell, **sig)], replay)
                 break
-            if st["k"] == "trace_out" and not sa["raised"] and mode == "arrays":
-                sha, shb = getattr(sa.get("ret"), "shape", None), getattr(sb.get("ret"), "shape", None)
-                if sha != shb:
-                    col.add([V("C18", False, "returned-shape-differs", f"step {i} trace_out: {sha} vs {shb}", cell, **sig)], replay)
-                    break
             if mode == "labels":
                 col.add([V("C18", True, "", "", cell, **sig)], replay)
                 if sa["outcomes"] != sb["outcomes"]:
